@@ -442,7 +442,7 @@ func (e *Env) index(a, i Val) Val {
 		return unflatten(et, []string{sel(a.S, idx)})
 	case KScalar:
 		e.vc.declStr()
-		return Val{K: KScalar, T: types.Typ[types.Uint8], S: sx("str.at", a.S, idx)}
+		return Val{K: KScalar, T: types.Typ[types.Uint8], S: sx("s.at", a.S, idx)}
 	case KPtr:
 		if a.L != nil {
 			if at, ok := a.L.typeAt().Underlying().(*types.Array); ok {
@@ -627,6 +627,14 @@ func (e *Env) call(x *SExpr) Val {
 			return e.fail("iface_ptr")
 		}
 		return ptrFromRef(t, a.If[1])
+	case "crc32":
+		a := argv(0)
+		if a.K != KSlice {
+			return e.fail("crc32 of non-slice")
+		}
+		h := vc.byteHeap(e.st)
+		vc.sc.declareFun("crc32", []string{arraySort(sortIdx, bvSort(8)), sortIdx, sortIdx}, bvSort(32))
+		return Val{K: KScalar, T: types.Typ[types.Uint32], S: sx("crc32", sel(h, a.Sl[0]), a.Sl[1], a.Sl[2])}
 	case "sext64":
 		a := argv(0)
 		return intVal(toIdx(a))
